@@ -480,6 +480,42 @@ static int keys_equal(ht_key a, ht_key b)
 	return a.u == b.u;
 }
 
+/* ---- legitimacy of HASHTABLE_FULL when a free slot exists in the add range but not in the hop range ---------------------
+ * Hopscotch moves the free slot towards the home bucket: an entry whose own home bucket lies at most HOPR-1 slots in front of
+ * the free slot, and which sits in front of the free slot, may hop into it. Implementations may choose differently among
+ * such entries, so FULL is only called illegitimate when EVERY sequence of legal hops ends with a free slot in reach
+ * (state taken from prev[], the table before the call). Depends only on the position of the free slot: memoised. */
+static signed char *hop_memo;
+static const struct ht_vt *hop_vt;
+static int every_hop_sequence_succeeds(uint32_t home, uint32_t freepos)
+{
+	uint32_t k;
+	int any = 0;
+	if (((freepos - home) & MASK) < HOPR) {
+		return 1;
+	}
+	if (hop_memo[freepos] >= 0) {
+		return hop_memo[freepos];
+	}
+	hop_memo[freepos] = 0; /* guards against cycles through wrap-around */
+	for (k = 1; k < HOPR; ++k) {
+		uint32_t s = (freepos - k) & MASK;
+		uint32_t hs;
+		if (!prev[s].occupied) {
+			continue;
+		}
+		hs = hop_vt->home(prev[s].key);
+		if (((freepos - hs) & MASK) < HOPR && ((s - hs) & MASK) < ((freepos - hs) & MASK)) {
+			any = 1;
+			if (!every_hop_sequence_succeeds(home, s)) {
+				return 0;
+			}
+		}
+	}
+	hop_memo[freepos] = (signed char)any;
+	return any;
+}
+
 /* structural invariants of the dump in cur[]; fills slot_home[] and referenced[] */
 static unsigned check_structure(void)
 {
@@ -841,6 +877,27 @@ static void do_op(char kind, uint32_t idx, unsigned flags)
 				for (d = 0; d < A; ++d) {
 					if (!cur[(home + d) & MASK].occupied) {
 						free_in_add_range = 1;
+					}
+				}
+				if (occ < T && free_in_add_range && T >= 2 * HOPR) {
+					uint32_t f = home;
+					for (d = 0; d < A; ++d) {
+						f = (home + d) & MASK;
+						if (!prev[f].occupied) {
+							break;
+						}
+					}
+					if (d < A && d >= HOPR) {
+						if (hop_memo == NULL) {
+							hop_memo = malloc(T);
+						}
+						memset(hop_memo, -1, T);
+						hop_vt = vt;
+						if (every_hop_sequence_succeeds(home, f)) {
+							viol(0, "full-although-displacement-possible",
+							     "order %u: put(%s) [home bucket %u] returns HASHTABLE_FULL although the free slot %u (%u positions away) can be brought into reach: every sequence of legal hops succeeds",
+							     vt->order, fmt_key(key, kb, sizeof(kb)), home, f, d);
+						}
 					}
 				}
 				if (occ == T) {
